@@ -88,3 +88,29 @@ def norm_model_parse(line):
     if line.startswith("CRASH\t"):
         return "\t".join(line.split("\t")[:2])
     return line
+
+
+def py_gen_text(ast, rp):
+    from pycparser.c_generator import CGenerator
+    try:
+        return "T:" + esc(CGenerator(reduce_parentheses=rp).visit(ast))
+    except RecursionError:
+        return "X:fuel"
+    except Exception as e:  # noqa
+        return "X:" + _CRASH.get(type(e).__name__, type(e).__name__)
+
+
+def py_gen(text, file=""):
+    """one line in the model driver's `gen` response format"""
+    r = py_parse_obj(text, file)
+    if r[0] == "OK":
+        return "OK\t" + py_gen_text(r[1], False) + "\t" + py_gen_text(r[1], True)
+    if r[0] == "PE":
+        return "PE\t" + esc(r[1])
+    if r[0] == "FUEL":
+        return "FUEL"
+    return "CRASH\t" + r[1]
+
+
+def gen_req(text, file=""):
+    return req("gen", file, text)
